@@ -414,3 +414,257 @@ def cross(ctx, pairs, rng, n, max_len=700, name="wire_cross"):
                            "line: %s\ndriver: %s\ncoq: %s\nexpected numbers: %s" % (line[:600], out[:600], " ".join(body.split())[:600], exp[:200]))
             break
     return len(terms)
+
+
+# ----------------------------------------------------------------------------- C15: histories on a body / parser
+
+HIST_HEADER = r"""
+Inductive hop := HNew (be : bool) | HB (o : bop) | HNop | HBeyond | HValid | HPNew | HPNewX (buf : list N) | HCur
+  | HGet (e : ety) | HGetN (es : list ety) | HGetP.
+Definition enc_body (b : body) : list N := [len (bsig b)] ++ bsig b ++ [bfds b; len (bbuf b)] ++ bbuf b.
+Definition enc_pstate (p : parser) : list N :=
+  (match get_next_sig p with Ok (Some s) => [0; len s] ++ s | Ok None => [1] | o => [2 + code o] end) ++
+  (match sigs_left p with Ok n => [0; n] | o => [1 + code o] end).
+Definition enc_gres (r : gres) : list N := match r with GVal v => 0 :: flat v | GWrongSig => [1] | GEnd => [2] | GErr => [3] end.
+Definition h_valid (b : body) : bool :=
+  match bsig b, bbuf b with
+  | [], [] => true
+  | _, _ => match parse_description (bsig b) with
+            | Ok tys => match op_validate (bbe b) 0 tys (bbuf b) with Ok n => N.eqb n (len (bbuf b)) | _ => false end
+            | _ => false
+            end
+  end.
+Definition h_step (st : body * parser) (o : hop) : (body * parser) * list N :=
+  let '(b, p) := st in
+  match o with
+  | HNew be => let b' := new_body be in ((b', p), 1 :: enc_body b')
+  | HB o => let '(b', ok) := step_body b o in ((b', p), b2n ok :: enc_body b')
+  | HNop => ((b, p), 1 :: enc_body b)
+  | HBeyond => let b' := {| bbe := bbe b; bsig := bsig b; bbuf := []; bfds := bfds b |} in ((b', p), 1 :: enc_body b')
+  | HValid => ((b, p), [b2n (h_valid b)])
+  | HPNew => let p' := new_parser b in ((b, p'), enc_pstate p')
+  | HPNewX buf => let p' := new_parser {| bbe := bbe b; bsig := bsig b; bbuf := buf; bfds := bfds b |} in ((b, p'), enc_pstate p')
+  | HCur => ((b, p), [pbuf_idx p; psig_idx p])
+  | HGet e => match get p e with
+              | Ok (p', r) => ((b, p'), enc_gres r ++ enc_pstate p')
+              | o => ((b, p), [100 + code o])
+              end
+  | HGetN es => match get_n p es with
+                | Ok (p', Some vs) => ((b, p'), [0; len vs] ++ flat_map flat vs ++ enc_pstate p')
+                | Ok (p', None) => ((b, p'), 1 :: enc_pstate p')
+                | o => ((b, p), [100 + code o])
+                end
+  | HGetP => match get_param p with
+             | Ok (p', r) => ((b, p'), enc_gres r ++ enc_pstate p')
+             | o => ((b, p), [100 + code o])
+             end
+  end.
+Fixpoint h_run (st : body * parser) (ops : list hop) : list N :=
+  match ops with
+  | [] => []
+  | o :: r => let '(st', out) := h_step st o in len out :: out ++ h_run st' r
+  end.
+Definition h_start : body * parser := (new_body false, new_parser (new_body false)).
+"""
+
+
+def _erase_term(sig):
+    es = parse_sig(sig, True)
+    if len(es) != 1:
+        raise Unsupported("ety " + sig)
+    return ty_term(es[0]), es[0]
+
+
+def _ety_of(sig):
+    es = parse_sig(sig, True)
+    if len(es) != 1:
+        raise Unsupported("ety " + sig)
+    return ety_term(es[0])
+
+
+def hist_op(line):
+    """one history line -> Gallina hop term"""
+    toks = [t for t in line.split(" ") if t]
+    op = toks[0].split("@")[0]
+    if op == "BNEW":
+        return "HNew %s" % bool_term(toks[1] == "be")
+    if op == "BRESET":
+        return "HB Reset"
+    if op in ("BPUSH", "BPUSHV"):
+        t, _ = _erase_term(toks[1])
+        v, _, end = val_term(toks, 2)
+        if end != len(toks):
+            raise Unsupported("trailing")
+        return "HB (%s (%s, %s))" % ("Push" if op == "BPUSH" else "PushVariant", t, v)
+    if op == "BPUSHVI":
+        _, e = _erase_term(toks[1])
+        if e[0] != "v" or toks[2] != "v":
+            raise Unsupported("BPUSHVI on a non-variant")
+        x, _, end = val_term(toks, 4)
+        if end != len(toks):
+            raise Unsupported("trailing")
+        return "HB (PushVariant (%s, %s))" % (ty_term(e[1]), x)
+    if op == "BPUSHN":
+        t, _ = _erase_term(toks[1])
+        k = int(toks[2])
+        pos = 3
+        items = []
+        for _ in range(k):
+            v, _, pos = val_term(toks, pos)
+            items.append("(%s, %s)" % (t, v))
+        if pos != len(toks):
+            raise Unsupported("trailing")
+        return "HB (%s [%s])" % ("PushN" if 2 <= k <= 5 else "PushParams", "; ".join(items))
+    if op == "BPUSHM":
+        k = int(toks[1])
+        pos = 2
+        items = []
+        for _ in range(k):
+            t, _ = _erase_term(toks[pos])
+            v, _, pos = val_term(toks, pos + 1)
+            items.append("(%s, %s)" % (t, v))
+        if pos != len(toks):
+            raise Unsupported("trailing")
+        return "HB (Push %s)" % items[0] if k == 1 else "HB (PushN [%s])" % "; ".join(items)
+    if op == "BOLD":
+        v, _, end = val_term(toks, 1)
+        if end != len(toks):
+            raise Unsupported("trailing")
+        return "HB (PushOld %s)" % v
+    if op == "BOLDS":
+        k = int(toks[1])
+        pos = 2
+        vs = []
+        for _ in range(k):
+            v, _, pos = val_term(toks, pos)
+            vs.append(v)
+        if pos != len(toks):
+            raise Unsupported("trailing")
+        return "HB (PushOlds [%s])" % "; ".join(vs)
+    if op in ("BOFF", "BRECV"):
+        return "HNop"
+    if op == "BBEYOND":
+        return "HBeyond"
+    if op == "BVALID":
+        return "HValid"
+    if op == "PNEW":
+        return "HPNew"
+    if op == "PNEWX":
+        return "HPNewX %s" % nlist(hexlist(toks[1]))
+    if op == "PCUR":
+        return "HCur"
+    if op == "PGET":
+        return "HGet %s" % _ety_of(toks[1])
+    if op == "PGETN":
+        return "HGetN [%s]" % "; ".join([_ety_of(toks[1])] * int(toks[2]))
+    if op == "PGETM":
+        k = int(toks[1])
+        es = [_ety_of(t) for t in toks[2:2 + k]]
+        return "HGet %s" % es[0] if k == 1 else "HGetN [%s]" % "; ".join(es)
+    if op == "PGETP":
+        return "HGetP"
+    raise Unsupported("op " + op)
+
+
+def _enc_body(f):
+    sg, buf = hexlist(f["sig"]), hexlist(f["buf"])
+    return [len(sg)] + sg + [int(f["nfds"]), len(buf)] + buf
+
+
+def _enc_pstate(f):
+    nx, left = f["next"], f["left"]
+    a = [1] if nx == "none" else [2 + CODE[nx]] if nx in CODE else [0, len(hexlist(nx))] + hexlist(nx)
+    b = [1 + CODE[left]] if left in CODE else [0, int(left)]
+    return a + b
+
+
+def hist_expect(line, out):
+    """the numbers h_step prints for this line, computed from the driver's output line"""
+    op = line.split(" ", 1)[0].split("@")[0]
+    f = _fields(out)
+    first = out.split(" ")[0]
+    if op[0] == "B" and op != "BVALID":
+        if first not in ("ok", "err"):
+            raise Unsupported("driver: " + out[:40])
+        return [1 if first == "ok" else 0] + _enc_body(f)
+    if op == "BVALID":
+        return [1 if f["valid"] == "true" else 0]
+    if op in ("PNEW", "PNEWX"):
+        return _enc_pstate(f)
+    if op == "PCUR":
+        a, b = f["cur"].split(",")
+        return [int(a), int(b)]
+    if "next" not in f:
+        if first not in CODE:
+            raise Unsupported("driver: " + out[:40])
+        return [100 + CODE[first]]
+    body = out.split(" ")[:-2]
+    single = op in ("PGET", "PGETP") or (op == "PGETM" and line.split(" ")[1] == "1")
+    if single:
+        if first == "ok":
+            return [0] + vals_flat(body[1:]) + _enc_pstate(f)
+        return [{"wrongsig": 1, "end": 2, "err": 3}[first]] + _enc_pstate(f)
+    if first == "ok":
+        # the number of values = the number of slots asked for
+        toks = line.split(" ")
+        k = int(toks[2]) if op == "PGETN" else int(toks[1])
+        return [0, k] + vals_flat(body[1:]) + _enc_pstate(f)
+    if first == "fail":
+        return [1] + _enc_pstate(f)
+    raise Unsupported("driver: " + out[:40])
+
+
+def hist_cross(ctx, histories, outputs, rng, n, max_chars=6000, name="c15_cross"):
+    """histories: lists of lines, outputs: the driver's lines; only self-contained histories (BNEW first, PNEW before any
+    other parser operation) are evaluated"""
+    cand = []
+    for h, o in zip(histories, outputs):
+        if not h or o is None or len(o) != len(h) or not h[0].startswith("BNEW") or sum(len(x) for x in h) > max_chars:
+            continue
+        pn = [i for i, l in enumerate(h) if l.startswith("PNEW")]
+        firstp = [i for i, l in enumerate(h) if l[0] == "P"]
+        if firstp and (not pn or pn[0] != firstp[0]):
+            continue
+        cand.append((h, o))
+    rng.shuffle(cand)
+    terms, exps, kept = [], [], []
+    for h, o in cand:
+        if len(terms) >= n:
+            break
+        try:
+            ops = [hist_op(l) for l in h]
+            exp = []
+            for l, x in zip(h, o):
+                e = hist_expect(l, x)
+                exp += [len(e)] + e
+        except (Unsupported, IndexError, KeyError, ValueError):
+            ctx.count("in_coq_vm_compute:history-not-convertible")
+            continue
+        terms.append("Eval vm_compute in (h_run h_start [%s])." % "; ".join(ops))
+        exps.append(exp)
+        kept.append((h, o))
+    if not terms:
+        return 0
+    vlib.coq_make(["Wire/Ops.vo", "Wire/Body.vo"])
+    res = vlib.coq_eval(name, HEADER + HIST_HEADER + "\n".join(terms) + "\n", timeout=1500)
+    blocks = re.split(r"^\s*= ", res, flags=re.M)[1:]
+    if len(blocks) != len(terms):
+        ctx.tie_broken("in-Coq evaluation printed %d results for %d histories" % (len(blocks), len(terms)), res[-1500:])
+        return 0
+    for blk, exp, (h, o) in zip(blocks, exps, kept):
+        got = [int(x) for x in re.findall(r"\d+", blk.split(": list N")[0])]
+        ctx.count("in_coq_vm_compute_histories")
+        ctx.count("in_coq_vm_compute_history_ops", len(h))
+        if got != exp:
+            # locate the first differing operation
+            at, pos = 0, 0
+            for k in range(len(h)):
+                ln = exp[pos] + 1
+                if got[pos:pos + ln] != exp[pos:pos + ln]:
+                    at = k
+                    break
+                pos += ln
+            ctx.tie_broken("extracted wire driver and Coq's own vm_compute evaluation of the body model differ",
+                           "history: %s\nat op %d: %s\ndriver: %s" % ([x[:120] for x in h[:at + 1]][-6:], at, h[at][:400], o[at][:400]))
+            break
+    return len(terms)
